@@ -16,7 +16,10 @@ def sh(cmd, cwd=None, env=None):
 
 
 def main():
-    want = set(sys.argv[1:])
+    args = [a for a in sys.argv[1:] if not a.startswith("--")]
+    update = "--update-meta" in sys.argv       # record the outcome in the seed's meta.json ("detected_by_now")
+    only = [a[7:] for a in sys.argv[1:] if a.startswith("--only=")]    # substring filter on the seed id, e.g. --only=-w5-
+    want = set(args)
     root = "/verif/seeded"
     scratch = f"/tmp/wt_seeds_{os.getpid()}"
     sh(f"git -C /repo worktree remove --force {scratch}")
@@ -28,6 +31,8 @@ def main():
             meta = json.load(open(f"{root}/{sid}/meta.json"))
             prop = meta["breaks_property"]
             if want and prop not in want:
+                continue
+            if only and not any(o in sid for o in only):
                 continue
             sh("git checkout -- . && git clean -fdq", scratch)
             rc, out = sh(f"git apply {root}/{sid}/patch.diff", scratch)
@@ -44,6 +49,12 @@ def main():
             if rc != 1:
                 bad += 1
             print(f"{sid}: {status}  {keys[0] if keys else ''}")
+            if update:
+                first = meta.get("detected_by", {}).get(prop, {})
+                meta["detected_by_now"] = {prop: {"exit": rc, "violations": keys[:4], "verif_commit": sh("git -C /verif rev-parse --short HEAD")[1].strip(),
+                                                  "repo_commit": sh("git -C /repo rev-parse --short HEAD")[1].strip()}}
+                meta["missed_at_first"] = bool(first) and first.get("exit") != 1
+                json.dump(meta, open(f"{root}/{sid}/meta.json", "w"), indent=1)
             sys.stdout.flush()
     finally:
         sh(f"git -C /repo worktree remove --force {scratch}")
